@@ -1,0 +1,206 @@
+//go:build verif
+
+// Contracts for package actions, checked by /verif/govc (comment-only file; no code).
+package actions
+
+// ---------------------------------------------------------------- disruptive actions (C02)
+// The Interruption handed to tx.Interrupt carries exactly the documented fields.
+// effRuleID: the rule's own id, or the chain starter's id for chain members (which have id 0).
+//@ define effRuleID(r plugintypes.RuleMetadata) int := ite(ruleMetaID(r) == 0, ruleMetaParentID(r), ruleMetaID(r))
+
+//@ func (*denyFn).Init props C02,C07
+//@   modifies nothing
+//@   ensures isnil(result) <==> data == ""
+
+//@ func (*denyFn).Evaluate props C02,C07
+//@   requires !isnil(r) && !isnil(tx)
+//@   modifies lastInterruption, corazawaf.Transaction.interruption, corazawaf.Transaction.detectionOnlyInterruption
+//@   ensures lastInterruption != nil && fresh(lastInterruption)
+//@   ensures lastInterruption.Action == "deny" && lastInterruption.Data == ""
+//@   ensures lastInterruption.RuleID == effRuleID(r)
+//@   ensures lastInterruption.Status == ite(ruleMetaStatus(r) == 0, 403, ruleMetaStatus(r))
+
+//@ func (*dropFn).Init props C02,C07
+//@   modifies nothing
+//@   ensures isnil(result) <==> data == ""
+
+//@ func (*dropFn).Evaluate props C02,C07
+//@   requires !isnil(r) && !isnil(tx)
+//@   modifies lastInterruption, corazawaf.Transaction.interruption, corazawaf.Transaction.detectionOnlyInterruption
+//@   ensures lastInterruption != nil && fresh(lastInterruption)
+//@   ensures lastInterruption.Action == "drop" && lastInterruption.Data == ""
+//@   ensures lastInterruption.RuleID == effRuleID(r)
+//@   ensures lastInterruption.Status == ruleMetaStatus(r)
+
+// redirect: the target is the action argument; the status is the rule's when it is one of 301, 302, 303, 307, else 302.
+//@ func (*redirectFn).Init props C02,C07
+//@   modifies a.target
+//@   ensures isnil(result) <==> data != ""
+//@   ensures isnil(result) ==> a.target == data
+//@   ensures !isnil(result) ==> a.target == old(a.target)
+
+//@ define redirectStatus(s int) int := ite(s == 301 || s == 302 || s == 303 || s == 307, s, 302)
+
+//@ func (*redirectFn).Evaluate props C02,C07
+//@   requires !isnil(r) && !isnil(tx)
+//@   modifies lastInterruption, corazawaf.Transaction.interruption, corazawaf.Transaction.detectionOnlyInterruption
+//@   ensures lastInterruption != nil && fresh(lastInterruption)
+//@   ensures lastInterruption.Action == "redirect" && lastInterruption.Data == a.target
+//@   ensures lastInterruption.RuleID == effRuleID(r)
+//@   ensures lastInterruption.Status == redirectStatus(ruleMetaStatus(r))
+
+// block takes no argument and does nothing by itself at request time (the parser substitutes SecDefaultAction's disruptive action).
+//@ func (*blockFn).Init props C02,C07
+//@   modifies nothing
+//@   ensures isnil(result) <==> data == ""
+//@ func (*blockFn).Evaluate props C02,C07
+//@   modifies nothing
+
+// status:N stores N as the rule's disruptive status; anything that is not a number is rejected.
+//@ func (*statusFn).Init props C02,C07
+//@   requires isRule(r)
+//@   modifies payload(r, "*corazawaf.Rule").DisruptiveStatus
+//@   ensures isnil(result) <==> (data != "" && isnum(data))
+//@   ensures isnil(result) ==> payload(r, "*corazawaf.Rule").DisruptiveStatus == atoi(data)
+//@   ensures !isnil(result) ==> payload(r, "*corazawaf.Rule").DisruptiveStatus == old(payload(r, "*corazawaf.Rule").DisruptiveStatus)
+
+// ---------------------------------------------------------------- flow actions (C08)
+//@ define isTx(tx plugintypes.TransactionState) bool := typeof(tx) == tag("*corazawaf.Transaction") && payload(tx, "*corazawaf.Transaction") != nil
+//@ define isRule(r plugintypes.RuleMetadata) bool := typeof(r) == tag("*corazawaf.Rule") && payload(r, "*corazawaf.Rule") != nil
+
+// skip:N accepts exactly the decimal integers N >= 1 and stores N; Evaluate arms the transaction's skip counter with N.
+//@ func (*skipFn).Init props C08,C07
+//@   modifies a.data
+//@   ensures isnil(result) <==> (data != "" && isnum(data) && atoi(data) >= 1)
+//@   ensures isnil(result) ==> a.data == atoi(data)
+//@   ensures !isnil(result) ==> a.data == old(a.data)
+
+//@ func (*skipFn).Evaluate props C08,C07
+//@   requires isTx(tx)
+//@   modifies payload(tx, "*corazawaf.Transaction").Skip
+//@   ensures payload(tx, "*corazawaf.Transaction").Skip == a.data
+
+// skipAfter:M stores the marker with one pair of enclosing quotes removed; an empty marker is rejected.
+//@ define actUnquote(s string) string := ite(len(s) >= 2 && s[0] == s[len(s)-1] && (s[0] == '"' || s[0] == '\''), s[1:len(s)-1], s)
+//@ func (*skipafterFn).Init props C08,C07
+//@   modifies a.data
+//@   ensures isnil(result) <==> actUnquote(data) != ""
+//@   ensures isnil(result) ==> a.data == actUnquote(data)
+//@   ensures !isnil(result) ==> a.data == old(a.data)
+
+//@ func (*skipafterFn).Evaluate props C08,C07
+//@   requires isTx(tx)
+//@   modifies payload(tx, "*corazawaf.Transaction").SkipAfter
+//@   ensures payload(tx, "*corazawaf.Transaction").SkipAfter == a.data
+
+// allow: "" -> all remaining phases, "request" -> the request phases, "phase" -> the current phase; nothing else is accepted.
+//@ func (*allowFn).Init props C08,C07
+//@   modifies a.allow
+//@   ensures isnil(result) <==> (data == "" || data == "request" || data == "phase")
+//@   ensures data == "" ==> a.allow == corazatypes.AllowTypeAll
+//@   ensures data == "request" ==> a.allow == corazatypes.AllowTypeRequest
+//@   ensures data == "phase" ==> a.allow == corazatypes.AllowTypePhase
+//@   ensures !isnil(result) ==> a.allow == old(a.allow)
+
+// Evaluate hands the scope to the transaction, which enforces it only while the engine is On.
+//@ func (*allowFn).Evaluate props C08,C07
+//@   requires isTx(txS)
+//@   modifies payload(txS, "*corazawaf.Transaction").AllowType
+//@   ensures payload(txS, "*corazawaf.Transaction").RuleEngine == types.RuleEngineOn ==> payload(txS, "*corazawaf.Transaction").AllowType == a.allow
+//@   ensures payload(txS, "*corazawaf.Transaction").RuleEngine != types.RuleEngineOn ==> payload(txS, "*corazawaf.Transaction").AllowType == old(payload(txS, "*corazawaf.Transaction").AllowType)
+
+// chain marks the rule as expecting a continuation; at request time the action itself does nothing.
+//@ func (*chainFn).Init props C08,C07
+//@   requires isRule(r)
+//@   modifies payload(r, "*corazawaf.Rule").HasChain
+//@   ensures isnil(result) <==> data == ""
+//@   ensures isnil(result) ==> payload(r, "*corazawaf.Rule").HasChain
+//@   ensures !isnil(result) ==> payload(r, "*corazawaf.Rule").HasChain == old(payload(r, "*corazawaf.Rule").HasChain)
+
+//@ func (*chainFn).Evaluate props C08,C07
+//@   modifies nothing
+
+// ---------------------------------------------------------------- logging flags (C19)
+// log -> (Log, Audit) = (true, true); nolog -> (false, false); auditlog -> Audit = true; noauditlog -> Audit = false
+// (the latter two leave Log alone). A rejected action (unexpected argument) changes nothing.
+//@ func (*logFn).Init props C19,C07
+//@   requires isRule(r)
+//@   modifies payload(r, "*corazawaf.Rule").Log, payload(r, "*corazawaf.Rule").Audit
+//@   ensures isnil(result) <==> data == ""
+//@   ensures isnil(result) ==> payload(r, "*corazawaf.Rule").Log && payload(r, "*corazawaf.Rule").Audit
+//@   ensures !isnil(result) ==> payload(r, "*corazawaf.Rule").Log == old(payload(r, "*corazawaf.Rule").Log) && payload(r, "*corazawaf.Rule").Audit == old(payload(r, "*corazawaf.Rule").Audit)
+
+//@ func (*nologFn).Init props C19,C07
+//@   requires isRule(r)
+//@   modifies payload(r, "*corazawaf.Rule").Log, payload(r, "*corazawaf.Rule").Audit
+//@   ensures isnil(result) <==> data == ""
+//@   ensures isnil(result) ==> !payload(r, "*corazawaf.Rule").Log && !payload(r, "*corazawaf.Rule").Audit
+//@   ensures !isnil(result) ==> payload(r, "*corazawaf.Rule").Log == old(payload(r, "*corazawaf.Rule").Log) && payload(r, "*corazawaf.Rule").Audit == old(payload(r, "*corazawaf.Rule").Audit)
+
+//@ func (*auditlogFn).Init props C19,C07
+//@   requires isRule(r)
+//@   modifies payload(r, "*corazawaf.Rule").Audit
+//@   ensures isnil(result) <==> data == ""
+//@   ensures isnil(result) ==> payload(r, "*corazawaf.Rule").Audit
+//@   ensures !isnil(result) ==> payload(r, "*corazawaf.Rule").Audit == old(payload(r, "*corazawaf.Rule").Audit)
+//@   ensures payload(r, "*corazawaf.Rule").Log == old(payload(r, "*corazawaf.Rule").Log)
+
+//@ func (*noauditlogFn).Init props C19,C07
+//@   requires isRule(r)
+//@   modifies payload(r, "*corazawaf.Rule").Audit
+//@   ensures isnil(result) <==> data == ""
+//@   ensures isnil(result) ==> !payload(r, "*corazawaf.Rule").Audit
+//@   ensures !isnil(result) ==> payload(r, "*corazawaf.Rule").Audit == old(payload(r, "*corazawaf.Rule").Audit)
+//@   ensures payload(r, "*corazawaf.Rule").Log == old(payload(r, "*corazawaf.Rule").Log)
+
+//@ func (*logFn).Evaluate props C19,C07
+//@   modifies nothing
+//@ func (*nologFn).Evaluate props C19,C07
+//@   modifies nothing
+//@ func (*auditlogFn).Evaluate props C19,C07
+//@   modifies nothing
+//@ func (*noauditlogFn).Evaluate props C19,C07
+//@   modifies nothing
+
+// ---------------------------------------------------------------- setvar (C09)
+// An accepted setvar has a compiled key macro and, unless it is a removal, a compiled value macro
+// (Evaluate expands both). `!` selects removal.
+//@ func (*setvarFn).Init props C09,C07
+//@   ensures initOK_key: isnil(result) ==> !isnil(a.key)
+// (a value macro is optional: "setvar:tx.name" and "setvar:!tx.name" carry none; Evaluate must cope with that)
+//@   ensures remove: isnil(result) && data[0] == '!' ==> a.isRemove
+//@   ensures keep: data != "" && data[0] != '!' ==> a.isRemove == old(a.isRemove)
+//@   ensures empty: data == "" ==> !isnil(result)
+
+// Evaluate expands key and value against the transaction and applies the edit to the TX collection under the
+// lower-cased key. What Init is meant to establish is required here (initOK).
+//@ define svCur(v int, c collection.Collection, key string) string := ite(colHas(v, c, key), colFirst(v, c, key), "")
+//@ define svCurOK(v int, c collection.Collection, key string) bool := svCur(v, c, key) == "" || isnum(svCur(v, c, key))
+//@ define svCurInt(v int, c collection.Collection, key string) int := ite(svCur(v, c, key) == "", 0, atoi(svCur(v, c, key)))
+//@ define svOperand(value string) int := ite(len(value) > 1, atoi(value[1:len(value)]), 0)
+//@ define svArith(value string) bool := len(value) > 0 && (value[0] == '+' || value[0] == '-') && (len(value) == 1 || isnum(value[1:len(value)]))
+//@ define svIsMap(c collection.Collection) bool := typeof(c) == tag("*collections.Map")
+//@ define svStored(v int, c collection.Collection, key string, s string) bool := colHas(v, c, key) && colFirst(v, c, key) == s
+
+// setvarEffect(a, c, key, value, v0, v1): the documented edit of collection c between state tokens v0 and v1.
+//@ define setvarEffect(a *setvarFn, c collection.Collection, key string, value string, v0 int, v1 int) bool :=
+//@     (isnil(c) ==> v1 == v0) &&
+//@     (svIsMap(c) && a.isRemove ==> !colHas(v1, c, key)) &&
+//@     (svIsMap(c) && !a.isRemove && value == "" ==> svStored(v1, c, key, "")) &&
+//@     (svIsMap(c) && !a.isRemove && len(value) > 0 && value[0] != '+' && value[0] != '-' ==> svStored(v1, c, key, value)) &&
+//@     (svIsMap(c) && !a.isRemove && svArith(value) && value[0] == '+' && svCurOK(v0, c, key) ==> svStored(v1, c, key, itoa(svCurInt(v0, c, key) + svOperand(value)))) &&
+//@     (svIsMap(c) && !a.isRemove && svArith(value) && value[0] == '-' && svCurOK(v0, c, key) ==> svStored(v1, c, key, itoa(svCurInt(v0, c, key) - svOperand(value)))) &&
+//@     (svIsMap(c) && !a.isRemove && svArith(value) && !svCurOK(v0, c, key) ==> v1 == v0) &&
+//@     (svIsMap(c) && !a.isRemove && len(value) > 1 && (value[0] == '+' || value[0] == '-') && !isnum(value[1:len(value)]) ==>
+//@         ite(strHasPrefix(value[1:len(value)], "tx."), v1 == v0, svStored(v1, c, key, value)))
+
+//@ func (*setvarFn).evaluateTxCollection props C09,C07
+//@   requires !isnil(r) && !isnil(tx)
+//@   modifies colVer
+//@   ensures setvarEffect(a, txCollection(tx, a.collection), key, value, old(colVer), colVer)
+
+//@ func (*setvarFn).Evaluate props C09,C07
+//@   requires !isnil(r) && !isnil(tx)
+//@   requires initOK: !isnil(a.key)
+//@   modifies colVer
+//@   ensures setvarEffect(a, txCollection(tx, a.collection), lower(expand(a.key, tx)), ite(isnil(a.value), "", expand(a.value, tx)), old(colVer), colVer)
